@@ -201,6 +201,22 @@ def p_history(x):
                 want.append(None)
         except KeyError:
             want.append(Exn('KeyError'))
+    # the object compares as the mapping it is: equal to a plain dict of its items (in any order), unequal to one that differs
+    if route in ('mapping', 'pairs', 'strings') or True:
+        now = dict(ref)
+        try:
+            rev = dict(reversed(list(now.items())))
+            if not (obj == now) or (obj != now) or not (obj == rev) or not (now == obj):
+                return 'after %r the object holds %r but does not compare equal to that dict' % (ops, now)
+            other = dict(now)
+            other['zz-not-there'] = '1'
+            if obj == other or not (obj != other):
+                return 'after %r the object compares equal to a dict with one more key' % (ops,)
+            same = debcon.Debian822(list(rev.items()))
+            if now and (not (obj == same) or obj != same):
+                return 'two objects holding %r (fields set in another order) compare unequal' % (now,)
+        except Exception as e:  # noqa
+            return 'comparing the object with a dict raises %s' % type(e).__name__
     if got != want:
         i = next(i for i, (a, b) in enumerate(zip(got, want)) if a != b)
         return 'after %r (route %s, init %r) operation %r observes %r, a dict observes %r' % (ops[:i], route, init, ops[i], got[i], want[i])
